@@ -32,6 +32,9 @@ def run(ctx):
     who_may(ctx, f, cfg)
     recorder(ctx, f, cfg)
     counter(ctx, f, cfg)
+    # precondition from the chain (C13): the library's check slots never leave a non-Blocked, non-Pass verdict in the context
+    from . import rules_C13
+    rules_C13.slot_stores(ctx, f, cfg)
     if ctx.tier == "thorough":
         macro_exit(ctx)
 
